@@ -107,8 +107,8 @@ impl<'a> G<'a> {
     }
     fn block(&mut self, depth: u32, sub: bool, pre: &[(&str, char)]) {
         self.open(sub);
-        for (n, _) in pre {
-            self.item('d', n);
+        for (n, c) in pre {
+            self.item(*c, n);
         }
         self.text.push_str("{ ");
         let k = self.rng.below(4);
@@ -272,9 +272,22 @@ impl<'a> G<'a> {
                 let f = self.fresh("f");
                 let np = self.rng.below(3) as usize;
                 let ps: Vec<&str> = (0..np).map(|_| self.pool()).collect();
-                let pl: Vec<String> = ps.iter().map(|p| format!("int {p}")).collect();
+                // a parameter type may name a width: that identifier is a use at this point of the signature
+                // (after the parameters before it, before the parameter itself); tag 't': a use that is not
+                // stored in the graph, only its diagnostic shows
+                let mut pl: Vec<String> = Vec::new();
+                let mut pre: Vec<(&str, char)> = Vec::new();
+                for p in &ps {
+                    if self.rng.below(3) == 0 {
+                        let wn = self.pool();
+                        pl.push(format!("{}[{wn}] {p}", if self.rng.below(2) == 0 { "int" } else { "bit" }));
+                        pre.push((wn, 't'));
+                    } else {
+                        pl.push(format!("int {p}"));
+                    }
+                    pre.push((*p, 'd'));
+                }
                 self.text.push_str(&format!("def {f}({}) ", pl.join(", ")));
-                let pre: Vec<(&str, char)> = ps.iter().map(|p| (*p, 'd')).collect();
                 self.block(depth, true, &pre);
                 self.item('d', &f);
                 self.defs.push((f, np));
@@ -467,7 +480,7 @@ pub fn run(args: &[String]) {
         }
         // oracle: every stored reference indexes a symbol whose name is the identifier as written
         let mut oracle = "ok".to_string();
-        let vis: Vec<&String> = written.iter().zip(g.items.iter()).filter(|(w, it)| w.is_some() && !it.starts_with('h')).map(|(w, _)| w.as_ref().unwrap()).collect();
+        let vis: Vec<&String> = written.iter().zip(g.items.iter()).filter(|(w, it)| w.is_some() && !it.starts_with('h') && !it.starts_with('t')).map(|(w, _)| w.as_ref().unwrap()).collect();
         if vis.len() == ev.len() {
             for (nm, e) in vis.iter().zip(ev.iter()) {
                 if let Some(id) = e.strip_prefix('B').or_else(|| e.strip_prefix('R')) {
